@@ -11,7 +11,7 @@ import (
 //zzv:bound L1 = direct algorithm with maxPwmChangePerCycle m in 1..255 (symbolic), previous request r anywhere in [min,max]: |r' - r| <= m
 //zzv:bound L2 = same: a fixed point (r' = r) is the unlimited algorithm's target S*(c), obtained by running the same real controller with the unlimited loop inside the same query (differential)
 //zzv:bound L3 = same: while r != S*(c) the next request is strictly nearer to S*(c) and lies between r and S*(c); with L1 this bounds settling by ceil(255/m)+1 cycles
-//zzv:outside the PID algorithm's settling value and settling time (products of symbolic floating-point state over an unbounded horizon): not decided by this technique; stalled never-stop fans (C02/C10) are excluded by assuming an RPM average of at least 1
+//zzv:outside the PID algorithm's settling value (a twin-run obligation 'idle time at the target does not influence the next step' was built on an exact virtual clock; cvc5 answers unknown after 200 s on it, so it is not registered) and settling time (products of symbolic floating-point state over an unbounded horizon): not decided by this technique; stalled never-stop fans (C02/C10) are excluded by assuming an RPM average of at least 1
 //zzv:inductive ZZ_C04_Direct ZZ_C04_Limited_FullRange ZZ_C04_Limited_Scaled
 
 func ZZ_C04_Direct() {
